@@ -9,7 +9,8 @@ EVIDENCE = dict(
          "random in-range values under every unit, random option assignments and type-specific payloads over the element "
          "types' full ranges are serialized in both contexts - Synth(module).write_to + load, Module.clone(), and inside a "
          "project - and TLC (Trace_RVFormat) checks loaded = Norm(original), loaded = Read(bytes), bytes = Write(original); "
-         "a Synth without a module must raise EmptySynthError and write nothing. non-trivial = the module differs from a "
+         "one module per type continues as a history (save, edit in place, save, load, edit, save) and one is wrapped in a Synth "
+         "while attached to a project; a Synth without a module must raise EmptySynthError and write nothing. non-trivial = the module differs from a "
          "freshly constructed one.",
     explanation="reference evaluation of RVFormat on every generated module; MC_RVFormat supplies the design-level states")
 
@@ -36,6 +37,13 @@ def run(ctx):
                     p.attach_module(None)
                 p.attach_module(mod)
                 evs.append(fmt.roundtrip_event(p, spec, w=True))
+            if k == 3:          # history on one synth: save, edit in place, save, load, edit the loaded synth, save
+                evs += fmt.chain_events(api.Synth(mod), spec, rnd, w=True)[0][1:]
+            if k == 4:          # a synth wrapped around a module that lives in a project
+                pp = mod.parent or api.Project()
+                pp.attach_module(mod)
+                pp.connect(mod, pp.output)
+                evs.append(fmt.roundtrip_event(api.Synth(mod), spec, w=True))
             for j, ev in enumerate(evs):
                 traces.append({"id": "%s#%d.%d" % (t, k, j), "events": [ev]})
                 ctx.count_case((t, k, j, json.dumps(ev["orig"], sort_keys=True)), nontrivial=nontrivial)
